@@ -402,7 +402,7 @@ func genTable(r *simrt.RNG, used map[string]bool, srs gpkgh.SRS, t tms20.TileMat
 		nattr = 30 + r.Intn(50) // a wide table
 	}
 	for i, n := 0, nattr; i < n; i++ {
-		typ := []string{"INTEGER", "REAL", "TEXT", "DOUBLE", "MEDIUMINT", "TEXT(20)", "Integer", "text", "Real", "DOUBLE PRECISION", "VARCHAR(10)", "BLOB", "BOOLEAN", "DATE", "DATETIME"}[r.Intn(15)]
+		typ := []string{"INTEGER", "REAL", "TEXT", "DOUBLE", "MEDIUMINT", "TEXT(20)", "Integer", "text", "Real", "DOUBLE PRECISION", "VARCHAR(10)", "BLOB", "BOOLEAN", "DATE", "DATETIME", "BIGINT", "NUMERIC", "DECIMAL(10,2)"}[r.Intn(18)]
 		col := gpkgh.Column{Name: ident(r, cused), Type: typ, NotNull: r.Chance(0.3)}
 		if r.Chance(0.12) {
 			switch strings.ToUpper(strings.Split(typ, "(")[0]) {
@@ -501,7 +501,7 @@ func genTable(r *simrt.RNG, used map[string]bool, srs gpkgh.SRS, t tms20.TileMat
 				continue
 			}
 			switch strings.ToUpper(strings.Split(col.Type, "(")[0]) {
-			case "INTEGER", "MEDIUMINT":
+			case "INTEGER", "MEDIUMINT", "BIGINT", "NUMERIC", "DECIMAL":
 				v := int64(r.Uint64()%2000001) - 1000000
 				if r.Chance(0.1) {
 					v = int64(r.Uint64()>>2) - (1 << 61) // beyond 2^53
